@@ -35,6 +35,7 @@ PAYLOAD = {
 
 YAML_PAYLOAD = {
     "benign": "description: A `Config` object.",
+    "pickled": "description: !!python/object/apply:pickle.loads [!!binary gAJjYnVpbHRpbnMKb3BlbgpxAC4=]",
     "call_expr": "description: !!python/object/apply:builtins.open [{S}, w]",
     "dunder_chain": "description: !!python/name:os.system",
     "import_stmt": "description: !!python/module:verif_sentinel_mod",
@@ -42,6 +43,7 @@ YAML_PAYLOAD = {
 
 
 def build_routes(slot, payload, sentinel):
+    _ensure_pickled(sentinel)
     y = YAML_PAYLOAD[payload if slot == "yaml_block" else "benign"].replace("{S}", sentinel)
     p = {k: v.replace("{S!r}", repr(sentinel)) for k, v in PAYLOAD[payload].items()}
     desc = p["desc"] if slot == "description" else "The primary key"
@@ -102,7 +104,27 @@ class Config(Base):
 '''
 
 
+def _ensure_pickled(sentinel):
+    """payload "pickled": a SERIALISED object -- the bytes literal of a pickle whose loading has a side effect, next to `pickle.loads` as the
+    type: the shape the argparse emitter itself writes for defaults it cannot spell (`type=pickle.loads, default=b'...'`)"""
+    import pickle
+    blob = repr(pickle.dumps(_Opener(sentinel), protocol=2))
+    PAYLOAD["pickled"] = {"expr": blob, "typ": "pickle.loads", "desc": "whether to pickle.loads({}); one of `pickle.loads` or `b`".format(blob),
+                          "stmt": "DATA = {}".format(blob)}
+
+
+class _Opener(object):
+    """an object whose pickle, when loaded, creates the sentinel file"""
+
+    def __init__(self, path):
+        self.path = path
+
+    def __reduce__(self):
+        return open, (self.path, "w")
+
+
 def build_module(slot, payload, sentinel):
+    _ensure_pickled(sentinel)
     p = {k: v.replace("{S!r}", repr(sentinel)) for k, v in PAYLOAD[payload].items()}
     b = PAYLOAD["benign"]
     expr = p["expr"] if slot == "default" else b["expr"]
@@ -160,10 +182,10 @@ def set_cli_args(argument_parser):
     :rtype: ```ArgumentParser```
     """
     argument_parser.description = "Hold the things"
-    argument_parser.add_argument("--a", type={typ}, help={desc!r}, default={expr})
+    argument_parser.add_argument("--a", type={ap_typ}, help={desc!r}, default={expr})
     argument_parser.add_argument("--b", type=int, help="the b", default=2)
     return argument_parser
-'''.format(stmt=stmt, typ=typ, expr=expr, desc=desc), desc, typ
+'''.format(stmt=stmt, typ=typ, expr=expr, desc=desc, ap_typ="pickle.loads" if payload == "pickled" and slot == "default" else typ), desc, typ
 
 
 WIDGET = '''"""Models (module-level code below must never run during analysis)"""
